@@ -190,6 +190,7 @@ static G element(const std::string& thc, const std::string& linc, const std::str
     double th = draw_theta<S>(thc, r) * r.sign();
     S re = (S)std::cos(th), im = (S)std::sin(th); S n = std::sqrt(re * re + im * im);
     c(I::coff) = re / n; c(I::coff + 1) = im / n;
+    if (std::fabs(th) == 3.14159265358979323846) { c(I::coff) = (S)-1; c(I::coff + 1) = th > 0 ? (S)0.0 : (S)-0.0; }   // the half turn exactly
   }
   if (I::rot == QUAT) {
     Eigen::Vector3d ax(r.u(-1, 1), r.u(-1, 1), r.u(-1, 1));
@@ -198,9 +199,16 @@ static G element(const std::string& thc, const std::string& linc, const std::str
     double th = draw_theta<S>(thc, r);
     Eigen::Matrix<S, 4, 1> q; q << (S)(ax(0) * std::sin(th / 2)), (S)(ax(1) * std::sin(th / 2)), (S)(ax(2) * std::sin(th / 2)), (S)std::cos(th / 2);
     q.normalize();
-    bool neg = hemi == "neg" || (hemi == "any" && r.i(0, 1));
+    if (th == 3.14159265358979323846) { q(3) = (S)0; q.normalize(); }   // the half turn exactly: w == 0
+    bool neg = hemi == "neg" || hemi == "negdn" || (hemi == "any" && r.i(0, 1));
     if (neg) q = -q;
     for (int k = 0; k < 4; ++k) c(I::coff + k) = q(k);
+  }
+  if (hemi == "posdn" || hemi == "negdn") {
+    // valid but not exactly normalised: squared norm off by at most 0.8 * Constants::eps (the constructor accepts up to eps)
+    const S k = (S)(1.0 + 0.4 * (double)manif::Constants<S>::eps * r.u(0.2, 1.0) * r.sign());
+    const int nrot = I::rot == COMPLEX ? 2 : I::rot == QUAT ? 4 : 0;
+    for (int i = 0; i < nrot; ++i) c(I::coff + i) *= k;
   }
   zero_block(c, I::coff, I::rot == COMPLEX ? 2 : I::rot == QUAT ? 4 : 0, dir);
   return G(c);
